@@ -299,6 +299,12 @@ func runC15(c *Ctx) {
 		}
 		gos := find(trigger, func(in ssa.Instruction) bool { _, ok := in.(*ssa.Go); return ok })
 		c.guarded(trigger, gs, 1, "go rebroadcast", gos, 1, gDominate)
+		// token balance in the trigger: once the token was taken, every path to
+		// the trigger's exit either starts the goroutine (which gives it back) or
+		// gives it back itself
+		relT := sendOn(isSem(trigger))
+		isGo := func(in ssa.Instruction) bool { _, ok := in.(*ssa.Go); return ok }
+		c.mustFollow(trigger, "semaphore token taken", c.successEdges(gs), anyOf(isGo, relT), "go rebroadcast (releases later) / token release", nil, 1)
 		// release after rebroadcast on every path
 		reb := c.method("pushtx", "Broadcaster", "rebroadcast")
 		rel := sendOn(isSem(worker))
@@ -307,7 +313,9 @@ func runC15(c *Ctx) {
 		rels := find(worker, rel)
 		c.verdict(len(rels) == 1, c.nm(worker)+" | the token is returned exactly once", c.P.Pos(worker.Pos()), "one release", fmt.Sprintf("%d releases of the semaphore token", len(rels)), c.ats(rels)...)
 		// initial token: one send in broadcastHandler before the loop
-		init := find(fn, sendOn(func(v ssa.Value) bool { return ir.DerivesFrom(v, func(x ssa.Value) bool { return x == ssa.Value(sem) }) }))
+		init := find(fn, sendOn(func(v ssa.Value) bool {
+			return ir.DerivesFrom(v, func(x ssa.Value) bool { return x == ssa.Value(sem) })
+		}))
 		c.verdict(len(init) == 1, c.nm(fn)+" | semaphore starts with one token", c.P.Pos(fn.Pos()), "one initial token", fmt.Sprintf("%d initial tokens", len(init)), c.ats(init)...)
 		// the goroutine works on a copy: it is given a map made in the trigger, filled with tx.Copy()
 		okCopy := false
